@@ -22,24 +22,16 @@ Print Assumptions C13_compare_defined.
 
 (* ---- no difference is reported exactly when the matrices agree, for every ignore setting ---- *)
 Theorem C13_no_difference_iff_agree :
-  forall ign a b r, wf_matrix a -> wf_matrix b -> ids_unique b ->
+  forall ign a b r, wf_matrix a -> wf_matrix b ->
     compare_db ign a b = Some r -> (reports_nothing r <-> agree ign a b).
 Proof. exact no_difference_iff_agree. Qed.
 Print Assumptions C13_no_difference_iff_agree.
 
-(* soundness alone needs no uniqueness of identifiers *)
 Theorem C13_agree_implies_no_difference :
   forall ign a b r, wf_matrix a -> wf_matrix b ->
     compare_db ign a b = Some r -> agree ign a b -> reports_nothing r.
 Proof. exact agree_implies_no_difference. Qed.
 Print Assumptions C13_agree_implies_no_difference.
-
-(* completeness does need it: a frame that re-uses an identifier under a new name is not reported *)
-Theorem C13_no_difference_iff_agree_refuted_without_unique_ids :
-  exists a b r, wf_matrix a /\ wf_matrix b /\ ids_unique a /\
-    compare_db ign0 a b = Some r /\ reports_nothing r /\ ~ agree ign0 a b.
-Proof. exact reused_identifier_not_reported. Qed.
-Print Assumptions C13_no_difference_iff_agree_refuted_without_unique_ids.
 
 (* the root's result stays None exactly when nothing is reported (what dump_result prints) *)
 Theorem C13_root_result_none_iff :
@@ -147,16 +139,36 @@ Theorem C13_single_edit_reported_at_frame :
 Proof. exact frame_edit_reported. Qed.
 Print Assumptions C13_single_edit_reported_at_frame.
 
-Theorem C13_single_edit_reported_frame_set :
+(* the frame set, for ANY two matrices (no uniqueness, no coherence): `paired` is the documented rule - same name, else
+   (neither name known to the other matrix) same identifier.  A frame that the rule pairs with nothing is reported deleted
+   resp. added; with unique names and identifiers in b, paired frames are compared with each other (and a differing
+   name is reported as a change of that frame) *)
+Theorem C13_unpaired_frames_reported :
   forall ign a b r, compare_db ign a b = Some r ->
-    (forall f1, In f1 (m_frames a) -> ~ In (fr_name f1) (map fr_name (m_frames b)) -> ~ In (arb f1) (map arb (m_frames b)) ->
-       reports r [] RDeleted TFRAME (fr_name f1)) /\
-    (forall f2, In f2 (m_frames b) -> ~ In (fr_name f2) (map fr_name (m_frames a)) -> ~ In (arb f2) (map arb (m_frames a)) ->
-       reports r [] RAdded TFRAME (fr_name f2)) /\
-    (forall f1, In f1 (m_frames a) -> ~ In (fr_name f1) (map fr_name (m_frames b)) -> In (arb f1) (map arb (m_frames b)) ->
-       reports r [(TFRAME, fr_name f1)] RChanged TName (fr_name f1)).
-Proof. exact frame_set_edit_reported. Qed.
-Print Assumptions C13_single_edit_reported_frame_set.
+    (forall f1, In f1 (m_frames a) -> (forall f2, ~ paired a b f1 f2) -> reports r [] RDeleted TFRAME (fr_name f1)) /\
+    (forall f2, In f2 (m_frames b) -> (forall f1, ~ paired a b f1 f2) -> reports r [] RAdded TFRAME (fr_name f2)) /\
+    (NoDup (map fr_name (m_frames b)) -> ids_unique b ->
+     forall f1 f2, paired a b f1 f2 ->
+       exists cf, compare_frame ign f1 f2 = Some cf /\ In (propagate cf) (kids_of r) /\
+                  type_of cf = TFRAME /\ ref_of cf = fr_name f1 /\
+                  (fr_name f1 <> fr_name f2 -> reports r [(TFRAME, fr_name f1)] RChanged TName (fr_name f1))).
+Proof. exact frames_reported. Qed.
+Print Assumptions C13_unpaired_frames_reported.
+
+(* frames added / deleted swap with the operands - for ANY two matrices, as lists in report order *)
+Theorem C13_swap_frames_added_deleted :
+  forall ign a b r1 r2, compare_db ign a b = Some r1 -> compare_db ign b a = Some r2 ->
+    top_frames is_added r2 = top_frames is_deleted r1 /\ top_frames is_added r1 = top_frames is_deleted r2.
+Proof. exact frames_swap. Qed.
+Print Assumptions C13_swap_frames_added_deleted.
+
+Theorem C13_crosswise_frames_reported :
+  exists r1 r2 r3,
+    compare_db ign0 (mat [frQ1]) (mat [frP1; frQ2]) = Some r1 /\ top_frames is_added r1 = [10] /\ top_frames is_deleted r1 = [] /\
+    compare_db ign0 (mat [frP1; frQ2]) (mat [frQ1]) = Some r2 /\ top_frames is_deleted r2 = [10] /\ top_frames is_added r2 = [] /\
+    compare_db ign0 (mat [frP1]) (mat [frP1; frZ1]) = Some r3 /\ top_frames is_added r3 = [12].
+Proof. exact crosswise_frames_reported. Qed.
+Print Assumptions C13_crosswise_frames_reported.
 
 Theorem C13_single_edit_reported_at_ecu :
   forall ign a b r, wf_matrix b -> compare_db ign a b = Some r ->
@@ -190,7 +202,9 @@ Theorem C13_swap_swaps_added_deleted :
 Proof. exact swap_swaps_added_deleted. Qed.
 Print Assumptions C13_swap_swaps_added_deleted.
 
-(* without `coherent` it fails, even with unique names and identifiers in both matrices *)
+(* without `coherent` the law on whole paths fails for a RENAMED frame (same identifier, new name), because the report names
+   the pair after the first operand's frame: x deleted below "FRAME P" vs x added below "FRAME Z".  (The harness judges
+   such pairs with the frame names of b mapped through the pairing.) *)
 Theorem C13_swap_refuted_without_coherence :
   exists a b r1 r2, wf_matrix a /\ wf_matrix b /\ ids_unique a /\ ids_unique b /\
     compare_db ign0 a b = Some r1 /\ compare_db ign0 b a = Some r2 /\
